@@ -16,10 +16,11 @@ import (
 // C20 (reply part): the platform reply the simulator predicts for a frame equals the reply the real server sends.
 
 type c20LiveCase struct {
-	Version  int      `json:"version"`
-	Phone    string   `json:"phone"`
-	Cmds     []uint16 `json:"commands"`
-	Pipeline bool     `json:"pipelined"`
+	Version   int      `json:"version"`
+	Phone     string   `json:"phone"`
+	Cmds      []uint16 `json:"commands"`
+	Pipeline  bool     `json:"pipelined"`
+	Predictor int      `json:"predictor_version"` // version of the simulator instance that predicts the replies (0 = the generating one)
 }
 
 var liveCmds = []uint16{0x0002, 0x0100, 0x0102, 0x0200, 0x0704, 0x1003, 0x1210, 0x1211, 0x1212}
@@ -39,17 +40,24 @@ func genC20Live(t *rapid.T) c20LiveCase {
 	for i := 0; i < n; i++ {
 		c.Cmds = append(c.Cmds, rapid.SampledFrom(liveCmds).Draw(t, "cmd"))
 	}
+	c.Predictor = rapid.SampledFrom([]int{0, 0, 1, 2, 3}).Draw(t, "predictor")
 	return c
 }
 
 func checkC20Live(c c20LiveCase, _ *kit.Collector) kit.Result {
 	res := kit.Result{Labels: []string{fmt.Sprintf("version_%d", c.Version)}}
 	term := simterm.New(simterm.WithHeader(consts.ProtocolVersionType(c.Version), c.Phone))
+	// the prediction is a function of the frame: any simulator instance (any version, any phone) must predict the same
+	pred := term
+	if c.Predictor != 0 {
+		pred = simterm.New(simterm.WithHeader(consts.ProtocolVersionType(c.Predictor), "13912345678"))
+		res.Labels = append(res.Labels, fmt.Sprintf("predictor_version_%d", c.Predictor))
+	}
 	var frames, want [][]byte
 	for i, cmd := range c.Cmds {
 		f := term.CreateDefaultCommandData(consts.JT808CommandType(cmd))
 		frames = append(frames, f)
-		want = append(want, term.ExpectedReply(uint16(i), hex.EncodeToString(f)))
+		want = append(want, pred.ExpectedReply(uint16(i), hex.EncodeToString(f)))
 		res.Labels = append(res.Labels, fmt.Sprintf("cmd_%04x", cmd))
 	}
 	steps := []Step{{Op: "dial"}}
